@@ -3,6 +3,7 @@ use std::path::PathBuf;
 
 fn main() {
     println!("cargo:rerun-if-changed=llguidance.h");
+    println!("cargo::rustc-check-cfg=cfg(llg_verif)");
 
     let crate_dir = env::var("CARGO_MANIFEST_DIR").unwrap();
     let header_path = PathBuf::from(&crate_dir).join("llguidance.h");
